@@ -73,7 +73,7 @@ def gen_cubes(tier, seed):
 
 
 def describe(c):
-    return {k: c[k] for k in ("api", "dtype", "tag", "st", "sp", "outcome", "pix", "checkvalue")} | {"nd": c["ndi"], "x_head": c["xi"][:10], "out_head": c["out"][:10], "n": len(c["xi"])}
+    return {k: c[k] for k in ("api", "dtype", "tag", "st", "sp", "outcome", "pix", "checkvalue", "ndmode")} | {"nd": c["ndi"], "x_head": c["xi"][:10], "out_head": c["out"][:10], "n": len(c["xi"])}
 
 
 def tla_case(c):
@@ -89,7 +89,8 @@ def run_common(prop, tier, seed, cubes, rule):
     cases = []
     for (pixels, nd, st, sp, api, dtype, *rest) in cubes:
         tag = rest[0] if rest else "gamma"
-        cases += spi_common.cases_for(pixels, nd, st, sp, api, dtype, tag)
+        ndmode = ["attr", "arg", "both"][(len(cases) + len(pixels)) % 3] if api == "accessor" else "attr"
+        cases += spi_common.cases_for(pixels, nd, st, sp, api, dtype, tag, ndmode=ndmode, dask=(api == "accessor" and len(cases) % 5 == 0))
     for i, c in enumerate(cases):
         c["tid"] = i + 1
     verdicts, stt = core.validate_batch(MODULE, [tla_case(c) for c in cases], per_jvm=150, timeout=6000, heap="4g", common={"ptable": ptable()})
@@ -119,7 +120,7 @@ def run(tier, seed):
 def replay(path, prop="C07"):
     v = json.loads(open(path).read())
     t = v["trace"]
-    cs = spi_common.cases_for([t["xi"]], t["ndi"], t["st"], t["sp"], t["api"], t["dtype"], t.get("tag", ""))
+    cs = spi_common.cases_for([t["xi"]], t["ndi"], t["st"], t["sp"], t["api"], t["dtype"], t.get("tag", ""), ndmode=t.get("ndmode", "attr"))
     cs[0]["tid"] = 1
     verdicts, _ = core.validate_batch(MODULE, [tla_case(cs[0])], jobs=1, common={"ptable": ptable()})
     print("replayed", describe(cs[0]), "->", verdicts[1])
